@@ -14,6 +14,8 @@ import (
 // null, true, a number and a non-numeral string; for each, every key path
 // that walks existing keys (under two re-casings) plus one absent key at each
 // level, to depth 4; each document as JSON maps/slices and as Go structs.
+// Rows part: arrays of objects whose elements spell a key in different letter
+// case and are carried by different Go types.
 // Random part: larger and deeper documents with key-only paths of depth 1..6.
 // The observable is Found(value, numbers by value) / KeyNotFound / other
 // error; it is compared with the model and with an independent
@@ -146,7 +148,7 @@ func pathsFor(d *D, depth int, prefix []string, out *[][]string) {
 
 func c01(c *Ctx) {
 	maxNodes := c.N(4, 5)
-	c.Rule = fmt.Sprintf("exhaustive: every document of <=%d nodes over objects (key alphabet %v, sibling keys distinct under folding), arrays of <=2 elements, null, true, 1.5, \"s\"; every key path walking existing keys in three casings plus an absent key per level, depth<=4; each document as map/slice values and as Go structs; random: documents of depth<=4 from the generator with key-only paths of depth 1..6 in random casing. Non-trivial = the path has >=1 key that exists at its level; distinct by (query, data).", maxNodes, keysC01)
+	c.Rule = fmt.Sprintf("exhaustive: every document of <=%d nodes over objects (key alphabet %v, sibling keys distinct under folding), arrays of <=2 elements, null, true, 1.5, \"s\"; every key path walking existing keys in three casings plus an absent key per level, depth<=4; each document as map/slice values and as Go structs; rows: arrays of 1..4 objects whose elements spell the same key in different letter case, lack it or hold null / scalars / objects, each element in a Go carrier of its own (map[string]any, struct, named-key map, interface-key map, typed map), read with `$.rows.key` and `$.rows.key.sub`; random: documents of depth<=4 from the generator with key-only paths of depth 1..6 in random casing. Non-trivial = the path has >=1 key that exists at its level; distinct by (query, data).", maxNodes, keysC01)
 	memo := map[int][]*D{}
 	seenQ := map[string]bool{}
 	for n := 1; n <= maxNodes; n++ {
@@ -177,6 +179,8 @@ func c01(c *Ctx) {
 			}
 		}
 	}
+	c.RunEvalCases()
+	rowsStreamC01(c)
 	c.RunEvalCases()
 
 	// random larger documents
@@ -219,6 +223,88 @@ func c01(c *Ctx) {
 		}
 		want := specLookup(doc, p)
 		ec := c.AddEval("$."+strings.Join(p, "."), doc, "random:"+want.kind, true, true)
+		ec.Check = func(o h.Outcome) string { return checkLookup(o, want) }
+	}
+}
+
+// rowsStreamC01: arrays of objects whose elements spell the same key in different letter case and are
+// carried by different Go types (map[string]any, struct, map with named / interface keys, typed map):
+// the key is collected from every element that has it, in order, whatever its spelling or carrier
+func rowsStreamC01(c *Ctx) {
+	r := c.Rng
+	n := c.N(4000, 80000)
+	pool := []string{"name", "qty", "k_1", "ab", "x"}
+	for i := 0; i < n; i++ {
+		keys := append([]string{}, pool...)
+		r.Shuffle(len(keys), func(a, b int) { keys[a], keys[b] = keys[b], keys[a] })
+		keys = keys[:1+r.Intn(3)]
+		leaf := func() *D {
+			switch r.Intn(5) {
+			case 0:
+				return h.Nil()
+			case 1:
+				return h.Bool(r.Intn(2) == 0)
+			case 2:
+				return h.FloatD(float64(r.Intn(9)))
+			case 3:
+				return h.Obj("x", h.FloatD(float64(r.Intn(5))), "y", h.Str("s"))
+			}
+			return h.Str([]string{"s", "abc", "", "p q"}[r.Intn(4)])
+		}
+		var rows, rendered []*D
+		for j, m := 0, 1+r.Intn(4); j < m; j++ {
+			var kv []any
+			allStr := true
+			for _, k := range keys {
+				if r.Intn(4) == 0 {
+					continue // this row lacks the key
+				}
+				v := leaf()
+				allStr = allStr && v.Tag == "s"
+				kv = append(kv, k, v)
+			}
+			row := h.Obj(kv...)
+			rows = append(rows, row)
+			// the same row with its keys re-cased, in a carrier of its own
+			rr := &D{Tag: "m", Kty: "str", Ety: "any"}
+			for x, k := range row.Ks {
+				rr.Ks = append(rr.Ks, h.Str(recase(k.S, r.Intn)))
+				rr.Vs = append(rr.Vs, row.Vs[x])
+			}
+			switch r.Intn(6) {
+			case 0:
+				if len(rr.Ks) > 0 {
+					rr = toStruct(rr)
+				}
+			case 1:
+				nk := *rr
+				nk.Kty = "nstr"
+				nk.Ks = nil
+				for _, k := range rr.Ks {
+					nk.Ks = append(nk.Ks, h.NStr(k.S))
+				}
+				rr = &nk
+			case 2:
+				nk := *rr
+				nk.Kty = "any"
+				rr = &nk
+			case 3:
+				if allStr && len(rr.Vs) > 0 {
+					nk := *rr
+					nk.Ety = h.TypedSlice(rr.Vs...).Ety
+					rr = &nk
+				}
+			}
+			rendered = append(rendered, rr)
+		}
+		doc := h.Obj("rows", h.SliceAny(rows...), "n", h.FloatD(1))
+		rdoc := h.Obj("rows", h.SliceAny(rendered...), "n", h.FloatD(1))
+		p := []string{"rows", recase(keys[r.Intn(len(keys))], r.Intn)}
+		if r.Intn(3) == 0 {
+			p = append(p, []string{"x", "X", "y", "zz"}[r.Intn(4)])
+		}
+		want := specLookup(doc, p)
+		ec := c.AddEval("$."+strings.Join(p, "."), rdoc, "rows:"+want.kind, true, want.kind == "found")
 		ec.Check = func(o h.Outcome) string { return checkLookup(o, want) }
 	}
 }
